@@ -175,6 +175,9 @@ func init() {
 		case "MapOrderNondet":
 			p.mapOrderNondet = a[0].(*Term).val != 0
 			return nil, true
+		case "DetSched":
+			p.detSched = a[0].(*Term).val != 0
+			return nil, true
 		case "RandZero":
 			// stated reduction for schedule-centred harnesses: padding draws and random bytes are all zero
 			p.randZero = a[0].(*Term).val != 0
